@@ -184,6 +184,16 @@ for i in _gi.emit_instances():
       stubs=st, funcs=["Generator::emit_and_process(%s)" % o, "Generator::{emit_int,emit_string,emit_bytes,emit_global,emit_opcode,mutate_*,create_snapshot,post_process_emission}"],
       cost=3 if i["tier"] == "quick" else 8, thorough_only_for=["C01", "C09", "C17", "C11"] if o not in ("NONE", "APPEND", "BINBYTES", "PUT") else [])
 
+for n, op, b in [("emit_short_binbytes_maxlen_stringlen", "SHORT_BINBYTES", "string-length mutator at symbolic rate"),
+                 ("emit_short_binstring_maxlen_stringlen", "SHORT_BINSTRING", "string-length mutator at symbolic rate"),
+                 ("emit_binbytes_maxlen_stringlen", "BINBYTES", "string-length mutator at symbolic rate"),
+                 ("emit_short_binbytes_maxlen_none", "SHORT_BINBYTES", "no mutators")]:
+    H(n, "emit.rs", "EMIT(long)", ["C04", "C11", "C09"], "thorough",
+      "%s with the length byte 255 (largest base payload: 31 symbolic bytes on the unchanged tree; up to 255 would still be executed), %s; "
+      "fuzzer bytes fully symbolic (272/40); prefix must equal payload length, one lexeme, simulation argument = payload" % (op, b),
+      stubs=ENV_STUBS + ["c_pso recorder"], funcs=["Generator::emit_and_process(%s)" % op, "Generator::emit_bytes", "Generator::mutate_bytes",
+                                                   "StringLengthMutator::mutate_bytes"], cost=10)
+
 # ---------------------------------------------------------------------------------------------------
 # MEMO-GET — GET-family emitters on the association-list model of the memo table (cargo feature verif_modelmap)
 MEMGET_STUBS = ENV_STUBS + [
